@@ -89,6 +89,9 @@ E1_NEGATIVE = {
     "neg_relaxed": ("Ticket", cfg(T_BASE, OrdCurrent="Relaxed"), T_INV, True),
     "neg_skipmax": ("Ticket", cfg(T_BASE, FixA=False, MaxOps=3, Sizes={2}, OpKinds={"next", "chunk", "skip", "hasmore"}), T_INV, True),
     "neg_panic": ("Ticket", cfg(T_BASE, FixH=False, PanicAt=1, Sizes={2}, OpKinds={"next", "chunk"}), T_INV, True),
+    # not a mutation but the design itself on a 2-bit machine word: a chunk request of 3 and two single pulls wrap the
+    # ticket dispenser, two threads hold ticket 0 (model-level witness of known finding G6)
+    "wrap_small_word": ("Ticket", cfg(T_BASE, NT=3, MaxOps=1, SrcLen=2, MOD=4, Sizes={3}, OpKinds={"next", "chunk"}), ["Inv_C07_Mutex"], False),
     "neg_revive": ("Ticket", cfg(T_BASE, Revive=1, SrcLen=1, Sizes={2}, Mutant="short_chunk_no_completed", OpKinds={"next", "chunk", "bnew", "bnext"}), T_REVIVE_INV, True),
 }
 
